@@ -352,6 +352,76 @@ func init() {
 		}
 		return TupleVal{p.locPtr("tz:" + name), IfaceVal{}}
 	}
+	// --- concrete host evaluation for offset parsing (tzutils.ParseTimezone) ---
+	// hostLoc rebuilds the host *time.Location a location pointer stands for.
+	hostLoc := func(p *Path, v Value) (*time.Location, bool) {
+		l, ok := v.(Ptr)
+		if !ok || l.c == nil {
+			return time.UTC, true
+		}
+		for k, c := range p.locs {
+			if c != l.c {
+				continue
+			}
+			switch {
+			case k == "UTC":
+				return time.UTC, true
+			case strings.HasPrefix(k, "fixed:"):
+				i := strings.LastIndex(k, ":")
+				off, err := strconv.Atoi(k[i+1:])
+				if err != nil {
+					return nil, false
+				}
+				return time.FixedZone(k[len("fixed:"):i], off), true
+			case strings.HasPrefix(k, "tz:"):
+				hl, err := time.LoadLocation(k[3:])
+				return hl, err == nil
+			}
+		}
+		return nil, false
+	}
+	hostTime := func(p *Path, t TimeVal) (time.Time, bool) {
+		sec, ok1 := t.sec.constInt64()
+		nsec, ok2 := t.nsec.constInt64()
+		hl, ok3 := hostLoc(p, t.loc)
+		if !(ok1 && ok2 && ok3) {
+			return time.Time{}, false
+		}
+		return time.Unix(sec, nsec).In(hl), true
+	}
+	// time.Parse on a concrete layout and value: evaluated by the host; a parsed
+	// numeric zone offset becomes the same kind of location object FixedZone gives.
+	I["time.Parse"] = func(p *Path, a []Value, _ *ssa.CallCommon) Value {
+		layout := cstr(p, a[0], "time.Parse layout")
+		value := cstr(p, a[1], "time.Parse value")
+		t, err := time.Parse(layout, value)
+		if err != nil {
+			return TupleVal{TimeVal{sec: mkInt(zeroTimeSec), nsec: mkInt(0), loc: p.locPtr("UTC")}, p.newErr(mkStr(err.Error()), nil, "time")}
+		}
+		loc := p.locPtr("UTC")
+		if t.Location() != time.UTC {
+			name, off := t.Zone()
+			loc = p.locPtr(fmt.Sprintf("fixed:%s:%d", name, off))
+		}
+		return TupleVal{TimeVal{sec: mkInt(t.Unix()), nsec: mkInt(int64(t.Nanosecond())), loc: loc}, IfaceVal{}}
+	}
+	// Zone of an instant in UTC or in a fixed zone (the offset does not depend on the instant)
+	I["(time.Time).Zone"] = func(p *Path, a []Value, _ *ssa.CallCommon) Value {
+		t := a[0].(TimeVal)
+		hl, ok := hostLoc(p, t.loc)
+		if !ok {
+			panic(unsupported("Time.Zone of a location that is neither UTC nor a fixed zone"))
+		}
+		if l, isPtr := t.loc.(Ptr); isPtr && l.c != nil {
+			for k, c := range p.locs {
+				if c == l.c && strings.HasPrefix(k, "tz:") {
+					panic(unsupported("Time.Zone of a tzdata location (offset depends on the instant)"))
+				}
+			}
+		}
+		name, off := time.Unix(0, 0).In(hl).Zone()
+		return TupleVal{mkStr(name), mkInt(int64(off))}
+	}
 	cmpT := func(f func(x, y TimeVal) *Term) intrinsicFn {
 		return func(p *Path, a []Value, _ *ssa.CallCommon) Value { return f(a[0].(TimeVal), a[1].(TimeVal)) }
 	}
@@ -451,14 +521,47 @@ func init() {
 		return func(p *Path, a []Value, _ *ssa.CallCommon) Value { return p.fresh("opaque_"+what, SStr) }
 	}
 	I["(time.Time).String"] = opaqueStr("timeString")
-	I["(time.Time).Format"] = opaqueStr("timeFormat")
+	I["(time.Time).Format"] = func(p *Path, a []Value, _ *ssa.CallCommon) Value {
+		// a concrete instant in UTC / a fixed zone with a concrete layout: host-evaluated
+		if lt, ok := a[1].(*Term); ok {
+			if layout, ok := lt.constStr(); ok {
+				if ht, ok := hostTime(p, a[0].(TimeVal)); ok {
+					if l, isPtr := a[0].(TimeVal).loc.(Ptr); isPtr && l.c != nil {
+						for k, c := range p.locs {
+							if c == l.c && (k == "UTC" || strings.HasPrefix(k, "fixed:")) {
+								return mkStr(ht.Format(layout))
+							}
+						}
+					}
+				}
+			}
+		}
+		return p.fresh("opaque_timeFormat", SStr)
+	}
 	I["(time.Duration).String"] = func(p *Path, a []Value, _ *ssa.CallCommon) Value {
 		if d, ok := termOf(a[0]).constInt64(); ok {
 			return mkStr(time.Duration(d).String())
 		}
 		return p.fresh("opaque_duration", SStr)
 	}
-	I["(*time.Location).String"] = opaqueStr("locString")
+	I["(*time.Location).String"] = func(p *Path, a []Value, _ *ssa.CallCommon) Value {
+		if l, ok := a[0].(Ptr); ok && l.c != nil {
+			for k, c := range p.locs {
+				if c != l.c {
+					continue
+				}
+				switch {
+				case k == "UTC" || k == "Local":
+					return mkStr(k)
+				case strings.HasPrefix(k, "tz:"):
+					return mkStr(k[3:])
+				case strings.HasPrefix(k, "fixed:"):
+					return mkStr(k[len("fixed:"):strings.LastIndex(k, ":")])
+				}
+			}
+		}
+		return p.fresh("opaque_locString", SStr)
+	}
 	// the message of a field validation error (formats its value through reflection):
 	// only ever logged or compared for de-duplication, never parsed
 	I["(*k8s.io/apimachinery/pkg/util/validation/field.Error).ErrorBody"] = opaqueStr("fieldErrorBody")
@@ -977,6 +1080,23 @@ func init() {
 		}
 		return p.strSlice(ts)
 	}
+	reStrSlice := func(name string, f func(re *regexp.Regexp, s string) []string) {
+		I["(*regexp.Regexp)."+name] = func(p *Path, a []Value, _ *ssa.CallCommon) Value {
+			rs := f(a[0].(HostVal).v.(*regexp.Regexp), cstr(p, a[1], name))
+			if rs == nil {
+				return SliceVal{}
+			}
+			ts := make([]*Term, len(rs))
+			for i, r := range rs {
+				ts[i] = mkStr(r)
+			}
+			return p.strSlice(ts)
+		}
+	}
+	reStrSlice("FindStringSubmatch", func(re *regexp.Regexp, s string) []string { return re.FindStringSubmatch(s) })
+	I["(*regexp.Regexp).FindString"] = func(p *Path, a []Value, _ *ssa.CallCommon) Value {
+		return mkStr(a[0].(HostVal).v.(*regexp.Regexp).FindString(cstr(p, a[1], "FindString")))
+	}
 	I["(*regexp.Regexp).String"] = func(p *Path, a []Value, _ *ssa.CallCommon) Value {
 		return mkStr(a[0].(HostVal).v.(*regexp.Regexp).String())
 	}
@@ -1258,6 +1378,7 @@ func (p *Path) sprintf(format Value, argsV Value) (*Term, Value) {
 		}
 		verb := f[j]
 		hadFlags := j != i
+		flagStr := f[i:j]
 		// a width pads to at least that many characters
 		if w := strings.TrimLeft(f[i:j], "+-# 0"); hadFlags && w != "" {
 			if k := strings.IndexByte(w, '.'); k >= 0 {
@@ -1277,6 +1398,19 @@ func (p *Path) sprintf(format Value, argsV Value) (*Term, Value) {
 		if arg == nil {
 			opaque = true
 			continue
+		}
+		if hadFlags && verb == 'd' {
+			// a constant integer of a basic type with flags / width: formatted by the host
+			if iv, ok := arg.(IfaceVal); ok && iv.t != nil {
+				if _, basic := iv.t.(*types.Basic); basic {
+					if tt, ok := iv.v.(*Term); ok && tt.sort == SInt {
+						if n, ok := tt.constInt64(); ok {
+							out = mkConcat(out, mkStr(fmt.Sprintf("%"+flagStr+"d", n)))
+							continue
+						}
+					}
+				}
+			}
 		}
 		if hadFlags && !(verb == 'v' && f[j-1] == '+') {
 			opaque = true
